@@ -136,7 +136,8 @@ def finish(prop_id, level, level_text, reports, ctx, t0, assumptions, not_decide
                     known_hit.append(o)
                 else:
                     viol.append(o)
-    os.makedirs(os.path.join(VERIF, "evidence", "replay"), exist_ok=True)
+    evdir = os.environ.get("VERIF_EVIDENCE_DIR") or os.path.join(VERIF, "evidence")
+    os.makedirs(os.path.join(evdir, "replay"), exist_ok=True)
     for rep in reports:
         fl = "; ".join("%s=%d (floor %d)" % f for f in rep.floors)
         print("[%s] %s: %d obligations, %d ok, %d table, %d violations%s" % (
@@ -148,7 +149,7 @@ def finish(prop_id, level, level_text, reports, ctx, t0, assumptions, not_decide
     for o in known_hit:
         print("KNOWN-FINDING: property=%s %s %s -- %s" % (prop_id, o.full_key(), o.where, o.msg))
     for i, o in enumerate(viol):
-        rp = os.path.join(VERIF, "evidence", "replay", "%s-%d.json" % (prop_id, i))
+        rp = os.path.join(evdir, "replay", "%s-%d.json" % (prop_id, i))
         with open(rp, "w") as fh:
             json.dump({"property": prop_id, "violation": o.to_json(),
                        "replay_cmd": "./check %s --tier %s --only %s" % (prop_id, ctx.tier, o.rule)}, fh, indent=1)
@@ -204,7 +205,7 @@ def finish(prop_id, level, level_text, reports, ctx, t0, assumptions, not_decide
         "wall_s": round(wall, 2),
         "violations": len(viol),
     }
-    with open(os.path.join(VERIF, "evidence", "%s.json" % prop_id), "w") as fh:
+    with open(os.path.join(evdir, "%s.json" % prop_id), "w") as fh:
         json.dump(ev, fh, indent=1)
     print("[%s] tier=%s obligations=%d ok=%d table=%d known=%d violations=%d wall=%.1fs" % (
         prop_id, ctx.tier, n_obl, n_ok, n_table, len(known_hit), len(viol), wall))
